@@ -187,6 +187,7 @@ func genRef(r *Rand, p *Plan, tier string, focus string) {
 	case "C13":
 		o.Filters, o.Overlap, o.V6 = true, true, true
 		o.OddScopes = r.Chance(30)
+		o.Span = r.Chance(40)
 	case "C07":
 		o.OddAuth = r.Chance(30)
 		o.Keychain = true
@@ -454,7 +455,7 @@ func genC14(r *Rand, p *Plan, tier string) {
 	p.Family = "ref-C14"
 	p.Scen.Server = "ref"
 	p.Scen.Format = PickOf(r, "yaml", "json")
-	d := GenDoc(r, DocOpts{Keychain: true, OddAuth: true, InvalidRegex: true, Filters: r.Chance(20), OddScopes: r.Chance(30)})
+	d := GenDoc(r, DocOpts{Keychain: true, OddAuth: true, InvalidRegex: true, Filters: r.Chance(20), OddScopes: r.Chance(30), Span: r.Chance(60)})
 	d.Normalize()
 	g := &refGen{r: r, d: d, sid: uint32(r.Intn(1 << 20))}
 	g.names, g.pws = DocUsers(d)
